@@ -10,14 +10,14 @@ CLAIMED = {
     "C06": (
         "model_checking",
         "explicit-state BFS over the real Table mutators (history states, canonical fingerprints), fold-vs-dump oracle in every state",
-        "Every history up to the stated depth over 8 op packs (id re-use, add-path, GR, LLGR, NHT, deferral, prefix limit) of the real rustybgp_table::Table is executed; after every step two folding consumers (best_changed / any_changed) must equal collect_loc_rib_paths and dest ids must be unique and stable. Exhaustive within the packs' universes (3 prefixes, 2 peers + local, restarted sessions, 5 attribute sets, 2 next hops).",
+        "Every history up to the stated depth over 8 op packs (id re-use, add-path, GR, LLGR, NHT, deferral, prefix limit) of the real rustybgp_table::Table is executed; after every step two folding consumers (best_changed / any_changed) must equal collect_loc_rib_paths and dest ids must be unique and stable. Exhaustive within the packs' universes (3 prefixes, 2 peers + local, restarted sessions, 5 attribute sets, 2 next hops). TableManager level: selection-deferral ops, destination ids unique across shards, and a late-observer model (the first session registers after a deferral that nobody watched).",
         "Trusted: the harness' session model (ops a peer can issue only while its session is up; start_deferral only on an empty table). Fingerprint = 128-bit hash of the canonical dump (collision probability negligible). Small-scope universe.",
         "DESIGN.md §5 C06",
     ),
     "C15": (
         "model_checking",
         "explicit-state BFS over the real Table mutators with a recount oracle in every state",
-        "Same exploration as C06; after every step peer_stats, Table::state and the per-session prefix-limit counter are compared with a recount from Table::destinations(enable_filtered=true); counter underflow and silently exceeded limits are flagged. Exhaustive within the packs' universes and depth.",
+        "Same exploration as C06; after every step peer_stats, Table::state and the per-session prefix-limit counter are compared with a recount from Table::destinations(enable_filtered=true); counter underflow and silently exceeded limits are flagged. Exhaustive within the packs' universes and depth. The two-family model (per-family statistics recount, one family dropped while the other stays) and a live model with an import policy that rejects one prefix of a limited peer.",
         "The limit counter is accepted under both readings of 'recount' (all prefixes of the peer / prefixes announced by the session owning the counter); purges are called with prefix_counter=None exactly as the daemon does.",
         "DESIGN.md §5 C15",
     ),
@@ -26,7 +26,7 @@ CLAIMED = {
 CLAIMED["C07"] = (
     "model_checking",
     "explicit-state BFS to fixpoint over the real PeerFsm::process (all reachable states of both connection roles), reference-transition oracle on every transition",
-    "All reachable states of the real two-connection PeerFsm are enumerated (fixpoint) for 12 configurations (local hold 0/90 x expected AS set/any x local identifier <,=,> remote) under 19 inputs per role (connect, acceptable/unacceptable OPENs, every message type, both timers, disconnect, admin shutdown, update-sent). Every transition is compared with a reference transition function written from the statement (entry conditions of OpenConfirm/Established, FSM-error NOTIFICATION carrying the state, slot freed + Idle reported, collision survivor and Cease to the loser) and the one-survivor invariant is evaluated in every state. OPEN byte encodings with invalid version / hold time / identifier go through the real parser.",
+    "All reachable states of the real two-connection PeerFsm are enumerated (fixpoint) for 12 configurations (local hold 0/90 x expected AS set/any x local identifier <,=,> remote) under 19 inputs per role (connect, acceptable/unacceptable OPENs, every message type, both timers, disconnect, admin shutdown, update-sent). Every transition is compared with a reference transition function written from the statement (entry conditions of OpenConfirm/Established, FSM-error NOTIFICATION carrying the state, slot freed + Idle reported, collision survivor and Cease to the loser) and the one-survivor invariant is evaluated in every state. OPEN byte encodings with invalid version / hold time / identifier go through the real parser. Live collision part: two real sessions of one neighbour (daemon roles active and passive) resolve a collision for both identifier orders and both OPEN orders, also with the neighbour going silent afterwards: the loser is sent Cease 6/7 and closed, the survivor reaches Established, keeps sending KEEPALIVEs and gives up a silent neighbour with Hold Timer Expired.",
     "Sans-IO FSM level: the I/O driver (ConnArbiter, session tasks) is not exercised by this check. Both readings of 'carrying that state' (internal state number / RFC 6608 sub-code) are accepted; with equal identifiers either survivor is accepted.",
     "DESIGN.md §5 C07",
 )
@@ -49,7 +49,7 @@ CLAIMED["C11"] = (
 CLAIMED["C10"] = (
     "model_checking",
     "explicit-state BFS over LIVE sessions (real accept_connection / PeerSession::run / apply_disconnect / timer tasks over loopback TCP, harness = remote speaker) plus fixpoint BFS of the pure GrState machine",
-    "(ii) Every history up to the depth bound of: establish with chosen GR / LLGR / N-bit capabilities, announce (plain and NO_LLGR), End-of-RIB, drop by six reasons (TCP close, Cease, hard reset, non-Cease NOTIFICATION, local admin shutdown, locally detected UPDATE error), failed reconnects closed before / after the OPEN, restart- and LLGR-timer expiry through the code's own one-shot senders, disable / enable, is executed against the real session code with real tables; after every step: stale routes only while a restart timer / that family's LLGR timer is armed or an End-of-RIB is awaited, no helper state after an ineligible drop, non-negotiated families empty, routes of the current session never purged, NO_LLGR routes gone in the LLGR period, failed reconnects leave the timers alone, FSM slots freed. (i) The pure GrState machine is explored to fixpoint with the driver's table/timer calls as reference.",
+    "(ii) Every history up to the depth bound of: establish with chosen GR / LLGR / N-bit capabilities, announce (plain and NO_LLGR), End-of-RIB, drop by six reasons (TCP close, Cease, hard reset, non-Cease NOTIFICATION, local admin shutdown, locally detected UPDATE error), failed reconnects closed before / after the OPEN, restart- and LLGR-timer expiry through the code's own one-shot senders, disable / enable, is executed against the real session code with real tables; after every step: stale routes only while a restart timer / that family's LLGR timer is armed or an End-of-RIB is awaited, no helper state after an ineligible drop, non-negotiated families empty, routes of the current session never purged, NO_LLGR routes gone in the LLGR period, failed reconnects leave the timers alone, FSM slots freed. (i) The pure GrState machine is explored to fixpoint with the driver's table/timer calls as reference. Drop reasons include the operator's hard reset (ResetPeer through the real gRPC handler); LLGR packs announce a route carrying the LLGR_STALE community.",
     "Quiescence is established by KEEPALIVE barriers on the session's receive counter and by task completion (a timeout there is a machinery error, exit 2). Hold-timer expiry as a drop reason is not enumerated (needs seconds of real time). A received non-Cease NOTIFICATION with the N-bit negotiated is accepted either way (RFC 8538 vs the statement's wording).",
     "DESIGN.md §5 C10",
 )
@@ -57,21 +57,21 @@ CLAIMED["C10"] = (
 CLAIMED["C01"] = (
     "model_checking",
     "explicit-state BFS over the real export pipeline with a LIVE observing session (PeerSession::run over loopback TCP), differential oracle against a brand-new session on a replica daemon",
-    "Every history up to the depth bound of announce / withdraw / peer-down (with and without GR) / LLGR start / stale purge / next-hop flap / export-policy swap / soft_reset_out / ROUTE-REFRESH events from two peers, the local source and the neighbour itself, with an explicit sync op controlling when the observing session delivers and flushes (batched vs one-by-one delivery), is executed against the real TableManager + PeerSession::run + process_nlri_change + PendingTx + flush_tx + encoder; at every sync the neighbour's mirror Adj-RIB-In decoded from the received bytes must equal the mirror of a brand-new session with identical parameters from the same address on a replica daemon rebuilt by replaying the RIB ops, and contain only prefixes the RIB still has. Configurations: observer role (eBGP, iBGP, RR client, RS client; thorough also a confederation neighbour), add-path send-max 1/2, 1/2 shards, op packs for destination-id re-use, multi-source/best-change/add-path window, GR/LLGR + policy, and late-observer packs in which the neighbour's session comes up in the middle of a history and is held (cfg-guarded gate after on_established) with its initial dump buffered, so that the following changes are delivered before its first flush. The canonical state contains the RIB, the neighbour's mirror and the change events queued since the last sync (read from a second listener on the TableManager's stream). A soft_reset_out whose handling is HELD (cfg-guarded gate before each peer event is handled) until the next sync, so that the refresh walks a RIB that is ahead of the changes queued behind it (pack refresh-ahead); a restarting-speaker pack (selection deferral from before the first route, prefixes on two shards). soft_reset_out / ROUTE-REFRESH otherwise wait on a KEEPALIVE barrier, so when a refresh is handled is a harness choice, never a race. Focused small packs at one more level of depth: add-path with next-hop flaps on the best / non-best path, add-path and plain with an export policy that starts / stops rejecting a path inside the window. Schedule part: stateless exploration (baton scheduler, all schedules with <= 3 preemptions, thorough: all interleavings) of session establishment - register_peer's per-shard initial dump + channel registration - against concurrent withdraw / announce / replace / peer drop on both shards; fold(dump, delivered changes) must equal the Loc-RIB.",
+    "Every history up to the depth bound of announce / withdraw / peer-down (with and without GR) / LLGR start / stale purge / next-hop flap / export-policy swap / soft_reset_out / ROUTE-REFRESH events from two peers, the local source and the neighbour itself, with an explicit sync op controlling when the observing session delivers and flushes (batched vs one-by-one delivery), is executed against the real TableManager + PeerSession::run + process_nlri_change + PendingTx + flush_tx + encoder; at every sync the neighbour's mirror Adj-RIB-In decoded from the received bytes must equal the mirror of a brand-new session with identical parameters from the same address on a replica daemon rebuilt by replaying the RIB ops, and contain only prefixes the RIB still has. Configurations: observer role (eBGP, iBGP, RR client, RS client; thorough also a confederation neighbour), add-path send-max 1/2, 1/2 shards, op packs for destination-id re-use, multi-source/best-change/add-path window, GR/LLGR + policy, and late-observer packs in which the neighbour's session comes up in the middle of a history and is held (cfg-guarded gate after on_established) with its initial dump buffered, so that the following changes are delivered before its first flush. The canonical state contains the RIB, the neighbour's mirror and the change events queued since the last sync (read from a second listener on the TableManager's stream). A soft_reset_out whose handling is HELD (cfg-guarded gate before each peer event is handled) until the next sync, so that the refresh walks a RIB that is ahead of the changes queued behind it (pack refresh-ahead); a restarting-speaker pack (selection deferral from before the first route, prefixes on two shards). soft_reset_out / ROUTE-REFRESH otherwise wait on a KEEPALIVE barrier, so when a refresh is handled is a harness choice, never a race. Focused small packs at one more level of depth: add-path with next-hop flaps on the best / non-best path, add-path and plain with an export policy that starts / stops rejecting a path inside the window. Schedule part: stateless exploration (baton scheduler, all schedules with <= 3 preemptions, thorough: all interleavings) of session establishment - register_peer's per-shard initial dump + channel registration - against concurrent withdraw / announce / replace / peer drop on both shards; fold(dump, delivered changes) must equal the Loc-RIB. Further quick packs: held-queue (op HoldEvents: the session handles no peer event until the next sync, so events of different kinds wait in its channel together) and addpath2-window (three sources of one prefix against a window of two).",
     "In the BFS part producers are serialised (direct TableManager calls; shard locks make them atomic); the race between session establishment and RIB changes is explored by the schedule part. The bytes are decoded with the repository's parser under the neighbour's codec. An export-policy change is always followed by a soft reset / route refresh before views are compared. TCP partial writes are not varied. Two add-path re-advertisement defects are recorded as known findings.",
     "DESIGN.md §5 C01",
 )
 CLAIMED["C16"] = (
     "model_checking",
     "explicit-state BFS over connect/disconnect/unacceptable-OPEN/enable/disable/delete/reset/UpdatePeer histories against the real accept_connection + session tasks + gRPC handlers; bounded-exhaustive enumeration of capability-list pairs through negotiate / PeerFsm / negotiate_gr",
-    "(i) All histories up to the depth bound of TCP connects (passive and active role; from the static neighbour's address, an address inside a dynamic prefix, another address), disconnects, an OPEN the message decoder refuses, enable / disable / delete / hard reset / UpdatePeer (teardown-relevant and not) through the REAL gRPC handlers, for 4 configurations (static only with prefix limit; admin-down static + route-server dynamic group with GR and hold time; overlapping dynamic prefixes + RR-client group + confederation): admission verdict of accept_connection, nothing written before a refusal, role / hold time / local AS / families / GR capability / prefix limits of the session as seen in the OPEN it sends, Global.peers and connection slots after every step (dynamic neighbours disappear with their last connection), and every admin operation that tears sessions down must have delivered its close request through the arbiter each live session was registered with. (ii) Every ordered pair of capability lists from two complete menus (per-family absent / MP / add-path modes 0-4, conflicting duplicate add-path entries, AS4, extended message, unknown capability; GR flag/family lists x LLGR lists) goes through OPEN encode->decode and PeerCodec::negotiate in both directions: mirror-image families / add-path directions / extended message / AS width, PeerFsm's effective send-max vs the codec, GR / LLGR / N-bit in force iff both advertised.",
+    "(i) All histories up to the depth bound of TCP connects (passive and active role; from the static neighbour's address, an address inside a dynamic prefix, another address), disconnects, an OPEN the message decoder refuses, enable / disable / delete / hard reset / UpdatePeer (teardown-relevant and not) through the REAL gRPC handlers, for 4 configurations (static only with prefix limit; admin-down static + route-server dynamic group with GR and hold time; overlapping dynamic prefixes + RR-client group + confederation): admission verdict of accept_connection, nothing written before a refusal, role / hold time / local AS / families / GR capability / prefix limits of the session as seen in the OPEN it sends, Global.peers and connection slots after every step (dynamic neighbours disappear with their last connection), and every admin operation that tears sessions down must have delivered its close request through the arbiter each live session was registered with. (ii) Every ordered pair of capability lists from two complete menus (per-family absent / MP / add-path modes 0-4, conflicting duplicate add-path entries, AS4, extended message, unknown capability; GR flag/family lists x LLGR lists) goes through OPEN encode->decode and PeerCodec::negotiate in both directions: mirror-image families / add-path directions / extended message / AS width, PeerFsm's effective send-max vs the codec, GR / LLGR / N-bit in force iff both advertised. Established dynamic neighbours (part c16dyn): group GR x peer GR x (TCP close | Cease): no record is left behind and the address is admitted again. UpdatePeerGroup through the real handler is an op of the BFS; the daemon's peer groups are part of the state.",
     "Overlapping dynamic prefixes: any matching group is accepted (the statement requires a matching prefix, not a priority). codec/FSM lists and GR/LLGR lists are enumerated as two independent products because negotiate() never reads GR/LLGR and negotiate_gr/llgr read nothing else. Sessions are not driven beyond the daemon's OPEN in part (i).",
     "DESIGN.md §5 C16",
 )
 CLAIMED["C18"] = (
     "model_checking",
     "stateless schedule exploration of real OS threads running real TableManager methods under a baton scheduler (iterative preemption bounding, 16 parallel explorers), plus explicit-state BFS over subscribe / unsubscribe points in sequential histories",
-    "Schedules: 9 scenarios of subscribe(snapshot) against concurrent insert / remove / replace on the same and on another shard, peer drop + PeerDown, soft_reset_in under a changed import policy (alone and against an insert of the same peer), GR stale purge against a re-announcement, restart-timer drop, LLGR start + purge, a second subscriber coming and going; scheduling points are cfg-guarded hooks before every shard lock (a thread is enabled only when the lock it is about to take is free) and at every subscribers.load()/rcu(). Quick: every schedule with <= 3 preemptions; thorough: unbounded, i.e. ALL interleavings at hook granularity (the level at which no alternative is left is reported). After every complete execution fold(snapshot + live events) must equal the pre- and post-policy Adj-RIB-In of all shards, where the events up to EndOfSnapshot are accumulated by the BMP client's own apply_snapshot / flush_peer_snapshot (in-crate include in bmp.rs) and the live events are applied one by one; a failing schedule is re-executed and must fail identically. Histories: BFS depth 6 (thorough 10) over insert (accepted / rejected by policy) / remove / peer drop / GR drop / reconnect / stale purge / timer drop / LLGR start / LLGR purge / soft_reset_in / policy toggle / deferral / subscribe / unsubscribe with the folded view compared after every step. BMP station: BFS depth 7 (thorough 10) over session up / announce / withdraw / session down (atomic, and split into SessionDown and its later PeerDown event so that a station can attach in between; plain and with GR) / stale purge / restart-timer drop of two neighbours and attach / detach of a loopback BMP station served by the real BMP client (subscribe(snapshot), initial Peer Up burst, snapshot flush, live loop): Peer Down reaches the station only for a peer whose Peer Up it was sent, and for every peer the station holds as up its folded pre- and post-policy Adj-RIB-In equals the RIB's.",
+    "Schedules: 9 scenarios of subscribe(snapshot) against concurrent insert / remove / replace on the same and on another shard, peer drop + PeerDown, soft_reset_in under a changed import policy (alone and against an insert of the same peer), GR stale purge against a re-announcement, restart-timer drop, LLGR start + purge, a second subscriber coming and going; scheduling points are cfg-guarded hooks before every shard lock (a thread is enabled only when the lock it is about to take is free) and at every subscribers.load()/rcu(). Quick: every schedule with <= 3 preemptions; thorough: unbounded, i.e. ALL interleavings at hook granularity (the level at which no alternative is left is reported). After every complete execution fold(snapshot + live events) must equal the pre- and post-policy Adj-RIB-In of all shards, where the events up to EndOfSnapshot are accumulated by the BMP client's own apply_snapshot / flush_peer_snapshot (in-crate include in bmp.rs) and the live events are applied one by one; a failing schedule is re-executed and must fail identically. Histories: BFS depth 6 (thorough 10) over insert (accepted / rejected by policy) / remove / peer drop / GR drop / reconnect / stale purge / timer drop / LLGR start / LLGR purge / soft_reset_in / policy toggle / deferral / subscribe / unsubscribe with the folded view compared after every step. BMP station: BFS depth 7 (thorough 10) over session up / announce / withdraw / session down (atomic, and split into SessionDown and its later PeerDown event so that a station can attach in between; plain and with GR) / stale purge / restart-timer drop of two neighbours and attach / detach of a loopback BMP station served by the real BMP client (subscribe(snapshot), initial Peer Up burst, snapshot flush, live loop): Peer Down reaches the station only for a peer whose Peer Up it was sent, and for every peer the station holds as up its folded pre- and post-policy Adj-RIB-In equals the RIB's. Handler level (part c18api): WatchEvent through the real handler with init, one table filter kind at a time, snapshot then live events, against routes the import policy accepts and rejects. Sequential model also with an attribute-rewriting import policy.",
     "std::sync::Mutex, arc-swap and tokio channels are trusted to be linearizable at hook granularity (no weak-memory exploration). 'Peer-down only after peer-up' is asserted at the BMP station, not at the TableManager (the initial PeerUp burst is produced by the BMP client from Global.peers); there the table side is driven through the calls PeerSession makes and PeerState.session_addrs is set / cleared as apply_outputs does. While a peer's routes are retained as stale its entries are not compared (the statement does not say whether a subscriber that was told PeerDown still lists them); they are compared again after the purge. Time caps exist and are reported if hit (none is at quick).",
     "DESIGN.md §5 C18",
 )
@@ -86,14 +86,14 @@ CLAIMED["C02"] = (
 CLAIMED["C03"] = (
     "exploration",
     "bounded-exhaustive mutation enumeration of valid frames through the real decoders (BGP under 16 codec configurations per family, RTR, BFD), tokio Decoder contract as oracle",
-    "Seeds: valid frames for all 19 families from the generators (every NLRI value, next hop, attribute kind, OPEN capability kind, full-size 4096 / 65535-byte UPDATEs, long label chains); menu: every length field located by an independent frame walker set to boundary values incl. sums reaching 2^16, every type/flag byte over 256 values, body bytes to boundary values, truncation at every byte, one trailing byte; stream level every split offset / glued frames / byte-wise delivery; RTR versions x types 0-255 x length menu x every split; BFD every value of the fixed fields and every truncation. Quick: every single mutation (2.0e7 decoder calls); thorough: every pair of a full-menu and a boundary-menu mutation (1e9 calls). Oracle: no panic (dev and release), terminates under a watchdog, exactly one of message / need-more / error, Some => consumed, no need-more on a complete frame.",
+    "Seeds: valid frames for all 19 families from the generators (every NLRI value, next hop, attribute kind, OPEN capability kind, full-size 4096 / 65535-byte UPDATEs, long label chains); menu: every length field located by an independent frame walker set to boundary values incl. sums reaching 2^16, every type/flag byte over 256 values, body bytes to boundary values, truncation at every byte, one trailing byte; stream level every split offset / glued frames / byte-wise delivery; RTR versions x types 0-255 x length menu x every split; BFD every value of the fixed fields and every truncation. Quick: every single mutation (2.0e7 decoder calls); thorough: every pair of a full-menu and a boundary-menu mutation (1e9 calls). Oracle: no panic (dev and release), terminates under a watchdog, exactly one of message / need-more / error, Some => consumed, no need-more on a complete frame. Driver level (hd part c03drv): bursts of 1 to 1000 frames arriving in one read, optionally followed by a frame of unknown type, through the real run_select of an Established session: nothing complete may be left unparsed, the bad frame must be rejected.",
     "Coverage is the mutation closure of valid frames, not arbitrary byte strings. Allocation bombs are argued from the code (all lengths <= 16 bits), not observed. Built by a helper sub-agent; 5 root causes found and repaired.",
     "DESIGN.md §5 C03",
 )
 CLAIMED["C04"] = (
     "exploration",
     "bounded-exhaustive enumeration of messages x capability pairs through the real encoder, independent frame walker + peer-side decode as oracle",
-    "OPEN (every capability kind, 0-19 families, capability lists crossing 255 bytes), UPDATE reach/unreach/EoR for all 19 families with entry counts 0,1,2,k-1,k,k+1,2k,3k+1 around the measured frame capacity k, min/max NLRI sizes, attribute-block size ladder up to the frame limit, an attribute set as the decoder hands it on after RECEIVING optional attributes with the Extended Length bit on short values (relay), every NOTIFICATION variant, KEEPALIVE, ROUTE-REFRESH; capability pairs: 32 pairs reaching every negotiated outcome (incl. add-path send-only / receive-only) everywhere, all 1024 pairs on 4 families (thorough). Oracle: every frame within the negotiated maximum with mutually consistent length fields (independent walker), Ok(count) = frames seen, multiset of (prefix, path-id) / next hop / attributes decoded by the peer's codec equals the input modulo the documented canonicalisation, decode(encode(decode)) fixed point; dev and release profiles.",
+    "OPEN (every capability kind, 0-19 families, capability lists crossing 255 bytes), UPDATE reach/unreach/EoR for all 19 families with entry counts 0,1,2,k-1,k,k+1,2k,3k+1 around the measured frame capacity k, min/max NLRI sizes, attribute-block size ladder up to the frame limit, an attribute set as the decoder hands it on after RECEIVING optional attributes with the Extended Length bit on short values (relay), every NOTIFICATION variant, KEEPALIVE, ROUTE-REFRESH; capability pairs: 32 pairs reaching every negotiated outcome (incl. add-path send-only / receive-only) everywhere, all 1024 pairs on 4 families (thorough). Oracle: every frame within the negotiated maximum with mutually consistent length fields (independent walker), Ok(count) = frames seen, multiset of (prefix, path-id) / next hop / attributes decoded by the peer's codec equals the input modulo the documented canonicalisation, decode(encode(decode)) fixed point; dev and release profiles. Driver level (hd part c04drv): flush_tx with pending UPDATE lists that contain an UPDATE whose attributes leave no room for NLRI: every other UPDATE of the flush arrives, every frame is within the maximum.",
     "NLRI content of flowspec / LS / MUP / SR-policy is read with the repository's decoder (framing and attributes are independent for all families). Three capability-length signatures (RFC 9072 needed) are known findings. Built by helper sub-agents (generators + oracle).",
     "DESIGN.md §5 C04",
 )
@@ -107,7 +107,7 @@ CLAIMED["C05"] = (
 CLAIMED["C09"] = (
     "exploration",
     "full-matrix enumeration of process_nlri_change and the inbound loop checks against a reference export function written from the statement",
-    "source kind (5 peer roles, local, kernel, the receiver itself) x receiver role x RR config x confederation x add-path max x 256 attribute presence sets x 9 AS_PATH shapes x 7 next-hop kinds x 6 export policies x LLGR-stale; quick: pairwise-complete rows crossed with the full 240-cell source x receiver x RR x confed matrix (1.06e6 cases, each also through the real PendingTx); thorough: the full product (6.08e7 feasible tuples). Inbound: is_as_loop over every layout of 1-3 segments x 4 types x positions, rx_update ORIGINATOR_ID / CLUSTER_LIST cases into a TableManager, 114 live loopback sessions fed hand-written UPDATE bytes.",
+    "source kind (5 peer roles, local, kernel, the receiver itself) x receiver role x RR config x confederation x add-path max x 256 attribute presence sets x 9 AS_PATH shapes x 7 next-hop kinds x 6 export policies x LLGR-stale; quick: pairwise-complete rows crossed with the full 240-cell source x receiver x RR x confed matrix (1.06e6 cases, each also through the real PendingTx); thorough: the full product (6.08e7 feasible tuples). Inbound: is_as_loop over every layout of 1-3 segments x 4 types x positions, rx_update ORIGINATOR_ID / CLUSTER_LIST cases into a TableManager, 114 live loopback sessions fed hand-written UPDATE bytes. Under 'set next-hop unchanged' the next hop sent to an eBGP neighbour must be the received one; every (send-max, next hop, policy) triple is in the quick rows.",
     "ExportMap is fresh per case (multi-step export state is C01). Per-peer local-as override, transport family != route family, RTC filter not covered. Built by a helper sub-agent; no violation of the statement found, 13 deliberate mutations all detected.",
     "DESIGN.md §5 C09",
 )
@@ -121,14 +121,14 @@ CLAIMED["C12"] = (
 CLAIMED["C13"] = (
     "fault_enumeration",
     "exhaustive enumeration of conforming RTR cache scripts x delivery fragmentation x session-loss points against the real serve_inner over an in-memory duplex",
-    "Scripts from the RFC 6810/8210 grammar with <= 2 (thorough 3) incremental rounds over 3 prefixes (announce / withdraw), Cache Reset, Error Report, Router Key PDUs at any position, versions 0 and 1 (4052 scripts quick, 60 284 thorough), produced by an independent PDU encoder; delivered whole, byte-wise and split at every offset of every PDU; connection closed (EOF), failing with a read error (reset), or with the client's write side broken before the next Serial Notify, after every PDU; two caches on one TableManager in every segment interleaving (306 650 executions quick, 1.02e7 thorough). After each End-of-Data collect_roa for the cache equals the fold of its script, the other cache is untouched, nothing is left after the session ends, and every delivered PDU of any type is consumed (a parked client with unconsumed complete PDUs is a wedge).",
+    "Scripts from the RFC 6810/8210 grammar with <= 2 (thorough 3) incremental rounds over 3 prefixes (announce / withdraw), Cache Reset, Error Report, Router Key PDUs at any position, versions 0 and 1 (4052 scripts quick, 60 284 thorough), produced by an independent PDU encoder; delivered whole, byte-wise and split at every offset of every PDU; connection closed (EOF), failing with a read error (reset), or with the client's write side broken before the next Serial Notify, after every PDU; two caches on one TableManager in every segment interleaving (306 650 executions quick, 1.02e7 thorough). After each End-of-Data collect_roa for the cache equals the fold of its script, the other cache is untouched, nothing is left after the session ends, and every delivered PDU of any type is consumed (a parked client with unconsumed complete PDUs is a wedge). Two caches at ONE IP address announcing an identical VRP (8 orders of who completes first / who takes it back / how). Operator-ended sessions (token cancelled after a snapshot, through the real try_connect over TCP): repeated 40 / 200 times, NOT exhaustive - tokio::select!'s choice among ready branches is not owned by the harness.",
     "Quiescence = the client has read every byte written and is parked in poll_read (tap on the duplex), bounded yield loops + watchdog (expiry = machinery error). Malformed RTR input is C03's subject. Built by a helper sub-agent; 2 defects found and repaired.",
     "DESIGN.md §5 C13",
 )
 CLAIMED["C14"] = (
     "model_checking",
     "bounded-exhaustive enumeration of policy programs x routes against a reference interpreter, plus explicit-state BFS over policy CRUD histories",
-    "Prefix sets: all sets of <= 2 entries over an embedded space (nested, overlapping, sibling, zero prefix, ranges excluding the entry's own length, entries longer than the route) x ANY/INVERT x all routes, v4 and v6; AS-path sets: every single-pattern form + a regex probe x ANY/ALL/INVERT x all AS_PATHs of <= 2 segments of every type incl. empty segments; community / ext-community / large-community sets x options x lists of <= 2 values; scalar conditions at/below/above; chaining of statements (condition x disposition x action), policies of <= 2 statements, assignments of <= 2 policies, both defaults, import and export (1.27e7 evaluations quick, 1.45e8 thorough): disposition + attributes + next hop equal the reference, no panic in dev or release. CRUD: BFS depth 5 (thorough 6) over add / replace / delete of sets, statements, policies, assignments (names from pools of 2; global import/export + one per-peer export): referential integrity of everything a user holds, StillInUse for referenced objects, needs_rpki flag of every assignment, and the CONTENT of every defined set = what its accepted add / replace / delete calls add up to (compared as member sets with a fresh table given that content in one call).",
+    "Prefix sets: all sets of <= 2 entries over an embedded space (nested, overlapping, sibling, zero prefix, ranges excluding the entry's own length, entries longer than the route) x ANY/INVERT x all routes, v4 and v6; AS-path sets: every single-pattern form + a regex probe x ANY/ALL/INVERT x all AS_PATHs of <= 2 segments of every type incl. empty segments; community / ext-community / large-community sets x options x lists of <= 2 values; scalar conditions at/below/above; chaining of statements (condition x disposition x action), policies of <= 2 statements, assignments of <= 2 policies, both defaults, import and export (1.27e7 evaluations quick, 1.45e8 thorough): disposition + attributes + next hop equal the reference, no panic in dev or release. CRUD: BFS depth 5 (thorough 6) over add / replace / delete of sets, statements, policies, assignments (names from pools of 2; global import/export + one per-peer export): referential integrity of everything a user holds, StillInUse for referenced objects, needs_rpki flag of every assignment, and the CONTENT of every defined set = what its accepted add / replace / delete calls add up to (compared as member sets with a fresh table given that content in one call). Handler level (hd part c14api): BFS depth 7 (thorough 10) over 21 policy requests through the REAL gRPC handlers; the assignments installed in the TableManager must behave like those a PolicyTable of its own yields for the same requests, and the import path must filter a route exactly when that assignment rejects it.",
     "Three readings of AS-path matching on odd paths (GoBGP sequence-list, flat, per-segment) accepted. Non-IPv4/6 NLRI in prefix conditions and ext/large-community actions not covered. Built by a helper sub-agent; 7 defects found and repaired.",
     "DESIGN.md §5 C14",
 )
@@ -150,7 +150,7 @@ CLAIMED["C20"] = (
 CLAIMED["C17"] = (
     "exploration",
     "bounded-exhaustive enumeration of internal values (round trip) and of API messages with deviating fields (totality, invariants), downstream consumers as crash oracle",
-    "Round trip: every attribute and NLRI value obtained by decoding the wire corpus of C03/C04 (all 19 families, all 22 attribute kinds, LS / PREFIX_SID / TUNNEL_ENCAP TLV ladders) plus accepted single mutants -> attr_to_api / nlri_to_api -> attr_from_api / net_from_api -> must be identical (and re-encode to the same bytes). Totality / invariants: valid API messages for every attribute and NLRI type with every single field (quick) / pair of fields (thorough) set to boundary and out-of-range values (enum -1/0/max+1/256/2^31, lists of 0/1/255/256/70000 elements, malformed / wrong-family / over-long address strings, labels and lengths beyond their bit width): conversion must not panic, and whatever it accepts must (a) be accepted by the wire decoder after encoding, (b) survive the best-path comparator, policy evaluation with every condition kind, export rewriting and encoding under 4 codec configurations without panic (dev profile, overflow checks on).",
+    "Round trip: every attribute and NLRI value obtained by decoding the wire corpus of C03/C04 (all 19 families, all 22 attribute kinds, LS / PREFIX_SID / TUNNEL_ENCAP TLV ladders) plus accepted single mutants -> attr_to_api / nlri_to_api -> attr_from_api / net_from_api -> must be identical (and re-encode to the same bytes). Totality / invariants: valid API messages for every attribute and NLRI type with every single field (quick) / pair of fields (thorough) set to boundary and out-of-range values (enum -1/0/max+1/256/2^31, lists of 0/1/255/256/70000 elements, malformed / wrong-family / over-long address strings, labels and lengths beyond their bit width): conversion must not panic, and whatever it accepts must (a) be accepted by the wire decoder after encoding, (b) survive the best-path comparator, policy evaluation with every condition kind, export rewriting and encoding under 4 codec configurations without panic (dev profile, overflow checks on). Handler level (part c17api): AddPath / ListPath / DeletePath through the real handlers for the global table and a VRF, identifier lists [0] [7] [7,9] [0,9].",
     "24 signatures are known findings: information the gRPC schema cannot express (LS / PREFIX_SID / TUNNEL_ENCAP sub-TLVs, PARTIAL flag, OSPF area 0, RTC AS-wildcard with AS 0, descriptor order) and the private SRv6-SID LS layout; each needs an API schema extension or a codec redesign. 21 defects were repaired. Built by a helper sub-agent; integrated by a second one.",
     "DESIGN.md §5 C17",
 )
